@@ -17,6 +17,11 @@ pub fn type_name(k: usize, ty: usize) -> String {
     format!("m{k}::T{ty}")
 }
 
+/// Fallible singleton constructors are emitted as `cs<i>_<v>::build`.
+fn in_own_module(t: &TypeSpec, v: u8) -> bool {
+    t.life == Life::Singleton && t.fallible_of(v).is_some() && !t.prebuilt
+}
+
 fn lifecycle_attr(l: Life) -> &'static str {
     match l {
         Life::Singleton => "singleton",
@@ -90,7 +95,7 @@ pub fn emit_module(k: usize, spec: &AppSpec) -> String {
             let mut body = String::new();
             params(k, spec, &t.inputs, &cn, &mut sig, &mut body);
             let asy = if t.is_async { "async " } else { "" };
-            let ret = match t.fallible {
+            let ret = match t.fallible_of(v) {
                 Some(e) => format!("Result<T{i}, E{e}>"),
                 None => format!("T{i}"),
             };
@@ -101,11 +106,18 @@ pub fn emit_module(k: usize, spec: &AppSpec) -> String {
             } else {
                 format!("T{i} {{ tag: crate::rt::Tag::fresh(\"{tn}\", \"{cn}\"), _ns: std::marker::PhantomData }}")
             };
+            // fallible singleton constructors all have the same function name, each in a module of
+            // its own (identical callable names across modules: naming of generated items must cope)
+            let in_module = in_own_module(t, v);
+            if in_module {
+                let _ = writeln!(s, "pub mod cs{i}_{v} {{\nuse super::*;");
+            }
+            let fn_name = if in_module { "build".to_string() } else { format!("c{i}_{v}") };
             let _ = writeln!(s, "#[pavex::{}(id = \"M{k}_C{i}_{v}\"{flag})]", lifecycle_attr(t.attr_life.unwrap_or(t.life)));
-            let _ = writeln!(s, "pub {asy}fn c{i}_{v}({sig}) -> {ret} {{");
+            let _ = writeln!(s, "pub {asy}fn {fn_name}({sig}) -> {ret} {{");
             let _ = writeln!(s, "    crate::rt::enter(\"{cn}\");");
             s.push_str(&body);
-            if let Some(e) = t.fallible {
+            if let Some(e) = t.fallible_of(v) {
                 let _ = writeln!(
                     s,
                     "    if crate::rt::plan(\"{cn}\") == 1 {{ crate::rt::exit(\"{cn}\", \"err\"); return Err(E{e} {{ id: crate::rt::fresh_id() }}); }}"
@@ -113,6 +125,9 @@ pub fn emit_module(k: usize, spec: &AppSpec) -> String {
                 let _ = writeln!(s, "    let out = {make};\n    crate::rt::exit(\"{cn}\", \"ok\");\n    Ok(out)\n}}\n");
             } else {
                 let _ = writeln!(s, "    let out = {make};\n    crate::rt::exit(\"{cn}\", \"ok\");\n    out\n}}\n");
+            }
+            if in_module {
+                s.push_str("}\n\n");
             }
         }
     }
@@ -297,7 +312,8 @@ fn emit_regs(k: usize, spec: &AppSpec, regs: &[Reg], depth: usize, s: &mut Strin
                     if t.attr_clone.is_some() {
                         over.push_str(match t.clone_if_necessary { Some(true) => ".clone_if_necessary()", _ => ".never_clone()" });
                     }
-                    let _ = writeln!(s, "{ind}{bp}.constructor(M{k}_C{ty}_{variant}){over};");
+                    let module = if in_own_module(t, *variant) { format!("cs{ty}_{variant}::") } else { String::new() };
+                    let _ = writeln!(s, "{ind}{bp}.constructor({module}M{k}_C{ty}_{variant}){over};");
                 }
             }
             Reg::Comp { idx } => {
